@@ -1709,7 +1709,7 @@ Variable sel : amsg -> bool.
 Variable pairs : list (chunkindex * achunk).
 
 Definition ci_match (ci : chunkindex) (c : achunk) : Prop :=
-  In (ci, c) pairs /\ ci_start ci = ac_start c /\ ci_end ci = ac_end c.
+  In (ci, c) pairs /\ ci_start ci = ac_start c /\ ci_end ci = ac_end c /\ ci_offset ci = ac_off c.
 Definition en_match (e : entry) (x : aentry) : Prop := en_ts e = ae_ts x /\ en_slot e = snd x.
 Definition st_match (s : istate) (a : astate) : Prop :=
   Forall2 ci_match (i_cis s) (a_cks a) /\ Forall2 en_match (i_queue s) (a_queue a) /\
@@ -1803,7 +1803,7 @@ Lemma load_first_match o ci c e x : ci_match ci c -> en_match e x ->
   | ReverseLogTimeOrder => en_ts e <? ci_end ci
   | FileOrder => false
   end = a_load_first o c x.
-Proof. intros (_ & H1 & H2) [H3 _]. destruct o; cbn [a_load_first]; rewrite ?H1, ?H2, ?H3; reflexivity. Qed.
+Proof. intros (_ & H1 & H2 & _) [H3 _]. destruct o; cbn [a_load_first]; rewrite ?H1, ?H2, ?H3; reflexivity. Qed.
 
 (* one call of NextInto *)
 Theorem i_next_refines_thm : loader_ok -> forall fuel s a, st_match s a ->
@@ -1849,3 +1849,493 @@ Proof.
 Qed.
 
 End Refinement.
+
+Section RefinementAll.
+Variable dall : dalloracle.
+Variable ro : ropts.
+Variable sm : summ.
+Variable f : fsrc.
+Variable sel : amsg -> bool.
+Variable pairs : list (chunkindex * achunk).
+
+Lemma slot_stats_match s a : st_match pairs s a -> slot_stats s = a_slot_stats a.
+Proof.
+  intros (_ & _ & Hs). unfold slot_stats, a_slot_stats. rewrite <- Hs, map_length. f_equal.
+  rewrite (filter_map_comm fst (fun x => negb (x =? 0))), map_length. reflexivity.
+Qed.
+
+(* a complete read that ends normally (io.EOF) returns as many messages as the abstract run,
+   with the same slot statistics; a_run does not run out of fuel when indexed_all does not *)
+Theorem indexed_all_refines_thm : loader_ok dall ro sm f sel pairs ->
+  forall fuel n s a acc aacc st ms st',
+  st_match pairs s a ->
+  indexed_all dall fuel n ro sm f s acc st = Ok (ms, EEOF, st') ->
+  exists out, a_run sel (ro_order ro) fuel n a aacc st = Some (aacc ++ out, st') /\
+              length ms = (length acc + length out)%nat.
+Proof.
+  intros HL fuel. induction n as [|n IH]; intros s a acc aacc st ms st' HM H; [discriminate|].
+  cbn [indexed_all a_run] in *.
+  pose proof (i_next_refines_thm dall ro sm f sel pairs HL fuel s a HM) as R.
+  destruct (i_next dall ro sm f fuel s) as [[r s1]| | | |]; try discriminate; try contradiction.
+  destruct R as (ar & a' & Hn & R). rewrite Hn. destruct ar as [m|].
+  - destruct R as (e & s0 & x & _ & _ & _ & Hne & Hst). destruct r as [t|er].
+    + specialize (Hst t eq_refl). rewrite <- (slot_stats_match _ _ Hst).
+      destruct (IH _ _ _ (aacc ++ [m]) _ _ _ Hst H) as (out & Hr & Hl).
+      exists (m :: out). rewrite Hr, <- app_assoc. split; [reflexivity|].
+      rewrite Hl, app_length. cbn [length]. lia.
+    + inversion H; subst. contradiction.
+  - destruct R as [-> Hst]. inversion H; subst. exists []. rewrite app_nil_r, (slot_stats_match _ _ Hst).
+    split; [reflexivity|]. cbn [length]. lia.
+Qed.
+
+End RefinementAll.
+
+(* ====================================================================================== *)
+(* 8b. refinement, continued: the log times of the messages handed to the caller          *)
+(* ====================================================================================== *)
+(* load_chunk_i is opened here (no hypothesis): whatever it loads, each queue entry points at a
+   message record of the slot's buffer whose log time is the entry's timestamp, so yield returns
+   a message with that log time. *)
+
+Lemma take_firstn n (b : bytes) : take n b = firstn (N.to_nat n) b.
+Proof.
+  unfold take, blen. destruct (N.le_gt_cases n (N.of_nat (length b))) as [H|H].
+  - rewrite N.min_l by exact H. reflexivity.
+  - rewrite N.min_r by lia. rewrite Nnat.Nat2N.id. rewrite !firstn_all2; [reflexivity|lia|lia].
+Qed.
+Lemma drop_skipn n (b : bytes) : drop n b = skipn (N.to_nat n) b.
+Proof.
+  unfold drop, blen. destruct (N.le_gt_cases n (N.of_nat (length b))) as [H|H].
+  - rewrite N.min_l by exact H. reflexivity.
+  - rewrite N.min_r by lia. rewrite Nnat.Nat2N.id. rewrite !skipn_all2; [reflexivity|lia|lia].
+Qed.
+Lemma skipn_1_skipn {A} n : forall l : list A, skipn 1 (skipn n l) = skipn (S n) l.
+Proof.
+  induction n as [|n IH]; intro l; [reflexivity|]. destruct l as [|x l]; [reflexivity|].
+  cbn [skipn] in *. rewrite IH. reflexivity.
+Qed.
+Lemma head_len_eq off (buf : bytes) : skipn 1 (take 9 (drop off buf)) = take 8 (drop (off + 1) buf).
+Proof.
+  rewrite !take_firstn, !drop_skipn.
+  change (N.to_nat 9) with (1 + 8)%nat. change (N.to_nat 8) with 8%nat.
+  rewrite <- firstn_skipn_comm, skipn_1_skipn. f_equal. f_equal. lia.
+Qed.
+
+(* at offset off of buf there is a record whose body parses as a message with log time ts
+   (the expression is the one Reader.yield evaluates) *)
+Definition msg_at (buf : bytes) (off ts : N) : Prop :=
+  exists m, parse_message (take (unle (take 8 (drop (off + 1) buf))) (drop (off + 9) buf)) = Ok m /\ m_log m = ts.
+
+Lemma walk_entries ro sm fuel : forall buf off slot acc new, walk ro sm fuel buf off slot acc = Ok new ->
+  exists added, new = acc ++ added /\ Forall (fun e => en_slot e = slot /\ msg_at buf (en_off e) (en_ts e)) added.
+Proof.
+  induction fuel as [|fu IH]; intros buf off slot acc new H; [discriminate|].
+  cbn [walk] in H.
+  destruct (blen buf <=? off). { inversion H; subst. exists []. rewrite app_nil_r. split; auto. }
+  destruct (blen buf <? off + 9); [discriminate|].
+  destruct (two64 <=? off + 9 + unle (skipn 1 (take 9 (drop off buf)))); [discriminate|].
+  destruct (blen buf <? off + 9 + unle (skipn 1 (take 9 (drop off buf)))); [discriminate|].
+  destruct (Byte.eqb _ OpMessage).
+  - unfold bind in H. destruct (parse_message _) as [m| | | |] eqn:P; try discriminate.
+    destruct (match tab_get (m_chan m) (sm_channels sm) with Some _ => in_window ro (m_log m) | None => false end).
+    + apply IH in H. destruct H as (added & -> & Hall).
+      exists ({| en_ts := m_log m; en_off := off; en_slot := slot |} :: added).
+      rewrite <- app_assoc. split; [reflexivity|]. constructor; [|exact Hall].
+      cbn [en_slot en_off en_ts]. split; [reflexivity|]. exists m. split; [|reflexivity].
+      rewrite <- head_len_eq. exact P.
+    + apply IH in H. exact H.
+  - apply IH in H. exact H.
+Qed.
+
+Lemma load_chunk_i_shape dall ro sm f ci s s' : load_chunk_i dall ro sm f ci s = Ok s' ->
+  exists plain new, walk ro sm (S (length plain)) plain 0 (islot s) [] = Ok new /\
+    i_slots s' = slot_set (i_slots s) (islot s) (N.of_nat (length new), plain) /\
+    i_queue s' = merge_queue (ro_order ro) (i_queue s) new.
+Proof.
+  unfold load_chunk_i, bind.
+  destruct (seek_ok _ _); try discriminate.
+  destruct (ci_length ci <? 9); try discriminate.
+  destruct (fs_size f - ci_offset ci <? ci_length ci); try discriminate.
+  destruct (rd_full _ _) as [[rec e] r']. destruct e; try discriminate.
+  destruct (parse_chunk _) as [k| | | |]; try discriminate.
+  match goal with |- context[match ?x with Ok _ => _ | Err e => Err e | Panic p => _ | Exit q => _ | OutOfFuel => _ end] =>
+    destruct x as [plain| | | |] eqn:PL end; try discriminate.
+  set (s0 := if i_reccap s <? ci_length ci then _ else s).
+  assert (E1 : i_slots s0 = i_slots s) by (unfold s0; destruct (i_reccap s <? ci_length ci); reflexivity).
+  assert (E2 : i_queue s0 = i_queue s) by (unfold s0; destruct (i_reccap s <? ci_length ci); reflexivity).
+  clearbody s0. rewrite !E1.
+  destruct (walk _ _ _ _ _ _ _) as [new| | | |] eqn:W; try discriminate.
+  intro H. inversion H; subst. exists plain, new. cbn. rewrite E1, E2. auto.
+Qed.
+
+Lemma nth_error_slot_set : forall (l : list (N * bytes)) i v k, (i <= length l)%nat ->
+  nth_error (slot_set l i v) k = if (k =? i)%nat then Some v else nth_error l k.
+Proof.
+  induction l as [|x l IH]; intros i v k H; cbn [length] in H.
+  - assert (i = O) by lia. subst. cbn [slot_set]. destruct k as [|[|k]]; reflexivity.
+  - destruct i as [|i]; cbn [slot_set].
+    + destruct k; reflexivity.
+    + destruct k as [|k]; [reflexivity|]. cbn [nth_error]. rewrite IH by lia. reflexivity.
+Qed.
+Lemma slot_dec_buf (l : list (N * bytes)) i k n b : nth_error l k = Some (n, b) ->
+  exists n', nth_error (slot_dec l i) k = Some (n', b).
+Proof.
+  intro H. unfold slot_dec. destruct (nth_error l i) as [[ni bi]|] eqn:E; [|eauto].
+  assert (i < length l)%nat by (apply nth_error_Some; rewrite E; discriminate).
+  rewrite nth_error_slot_set by lia. destruct (Nat.eqb_spec k i) as [->|Hk]; [|eauto].
+  rewrite E in H. inversion H; subst. eauto.
+Qed.
+Lemma merge_queue_perm o q new : Permutation (merge_queue o q new) (q ++ new).
+Proof.
+  destruct o; cbn [merge_queue].
+  - reflexivity.
+  - rewrite en_sort_asc_sortd. apply sortd_perm.
+  - rewrite en_sort_desc_sortd, sortd_perm. apply Permutation_app_head. symmetry. apply Permutation_rev.
+Qed.
+Lemma Forall2_in_l {A B} (R : A -> B -> Prop) l l' a : Forall2 R l l' -> In a l -> exists b, In b l' /\ R a b.
+Proof.
+  induction 1 as [|x y l l' Hxy H IH]; intros Hin; [contradiction|].
+  destruct Hin as [->|Hin]; [exists y; split; [left; reflexivity|exact Hxy]|].
+  destruct (IH Hin) as (b & Hb & Hab). exists b. split; [right; exact Hb|exact Hab].
+Qed.
+
+(* the chunk lists: sorting commutes with the correspondence of chunk indexes and abstract chunks *)
+Lemma gins_Forall2 {A B} (bf : A -> A -> bool) (bf' : B -> B -> bool) (R : A -> B -> Prop) :
+  (forall x x' y y', R x x' -> R y y' -> bf x y = bf' x' y') ->
+  forall x x' l l', R x x' -> Forall2 R l l' -> Forall2 R (gins bf x l) (gins bf' x' l').
+Proof.
+  intros HR x x' l l' Hx H. induction H as [|y y' l l' Hy H IH]; cbn [gins].
+  - constructor; [exact Hx|constructor].
+  - rewrite (HR _ _ _ _ Hx Hy). destruct (bf' x' y'); constructor; auto.
+Qed.
+Lemma gsort_Forall2 {A B} (bf : A -> A -> bool) (bf' : B -> B -> bool) (R : A -> B -> Prop) :
+  (forall x x' y y', R x x' -> R y y' -> bf x y = bf' x' y') ->
+  forall l l', Forall2 R l l' -> Forall2 R (gsort bf l) (gsort bf' l').
+Proof.
+  intros HR l l' H. induction H as [|x x' l l' Hx H IH]; cbn [gsort fold_right]; [constructor|].
+  apply gins_Forall2; assumption.
+Qed.
+
+Section RefinementLogTimes.
+Variable dall : dalloracle.
+Variable ro : ropts.
+Variable sm : summ.
+Variable f : fsrc.
+Variable sel : amsg -> bool.
+Variable pairs : list (chunkindex * achunk).
+
+Lemma ci_sort_match o cis cks : Forall2 (ci_match pairs) cis cks ->
+  Forall2 (ci_match pairs) (ci_sort o cis) (ac_sort o cks).
+Proof.
+  intro H. rewrite ci_sort_gsort. unfold ac_sort. apply gsort_Forall2; [|exact H].
+  intros x x' y y' (_ & X1 & X2 & X3) (_ & Y1 & Y2 & Y3).
+  destruct o; unfold ci_before, ac_before; rewrite ?X1, ?X2, ?X3, ?Y1, ?Y2, ?Y3; reflexivity.
+Qed.
+
+Definition q_ok (s : istate) : Prop :=
+  Forall (fun e => exists n buf, nth_error (i_slots s) (en_slot e) = Some (n, buf) /\
+                                 msg_at buf (en_off e) (en_ts e)) (i_queue s).
+Definition rinv (s : istate) (a : astate) : Prop := st_match pairs s a /\ counts_ok a /\ q_ok s.
+
+Lemma islot_le s : (islot s <= length (i_slots s))%nat.
+Proof. rewrite islot_slot_of. rewrite <- (map_length fst (i_slots s)). apply slot_of_le. Qed.
+
+Lemma q_ok_load s a ci s' rest : rinv s a -> load_chunk_i dall ro sm f ci s = Ok s' ->
+  q_ok (s' <| i_cis := rest |>).
+Proof.
+  intros ((_ & Hq & Hs) & K1 & HQ) Hload.
+  apply load_chunk_i_shape in Hload. destruct Hload as (plain & new & W & Esl & Eq).
+  apply walk_entries in W. destruct W as (added & Hadd & Hall). cbn [app] in Hadd. subst added.
+  unfold q_ok. cbn. rewrite Eq, Esl.
+  eapply Permutation_Forall; [symmetry; apply merge_queue_perm|].
+  apply Forall_app. split.
+  - unfold q_ok in HQ. rewrite Forall_forall in HQ |- *. intros e He.
+    destruct (HQ e He) as (n & buf & Hn & Hm). exists n, buf. split; [|exact Hm].
+    rewrite nth_error_slot_set by apply islot_le.
+    destruct (Nat.eqb_spec (en_slot e) (islot s)) as [E|_]; [exfalso|exact Hn].
+    destruct (Forall2_in_l _ _ _ _ Hq He) as (x & Hx & (_ & Hslot)).
+    assert (Hj0 : cnt (slot_of (a_slots a)) (a_queue a) = O).
+    { pose proof (K1 (slot_of (a_slots a))) as H. rewrite slot_of_nth in H. lia. }
+    rewrite islot_slot_of, Hs in E. destruct x as [m k]. cbn [snd] in Hslot.
+    rewrite <- E, Hslot in Hj0. apply cnt_in_pos in Hx. lia.
+  - eapply Forall_impl; [|exact Hall]. intros e [Hsl Hm].
+    exists (N.of_nat (length new)), plain. split; [|exact Hm].
+    rewrite nth_error_slot_set by apply islot_le. rewrite Hsl, Nat.eqb_refl. reflexivity.
+Qed.
+
+Lemma q_ok_yield s e q t s' : q_ok s -> i_queue s = e :: q -> yield sm e s = (IMsg t, s') -> q_ok s'.
+Proof.
+  intros HQ Eq Hy. apply yield_msg in Hy. destruct Hy as (_ & Y2 & Y3).
+  unfold q_ok in *. rewrite Y2, Y3, Eq in *. cbn [tl]. inversion HQ as [|? ? _ HQ']; subst.
+  eapply Forall_impl; [|exact HQ']. intros e' (n & buf & Hn & Hm).
+  destruct (slot_dec_buf _ (en_slot e) _ _ _ Hn) as (n' & Hn'). exists n', buf. auto.
+Qed.
+
+Lemma yield_ts s e q t s' : q_ok s -> i_queue s = e :: q -> yield sm e s = (IMsg t, s') ->
+  m_log (snd t) = en_ts e.
+Proof.
+  intros HQ Eq. unfold q_ok in HQ. rewrite Eq in HQ. inversion HQ as [|? ? (n & buf & Hn & (m & P & L)) _]; subst.
+  unfold yield. rewrite Hn, P.
+  destruct (tab_get (m_chan m) (sm_channels sm)) as [c|]; [|discriminate].
+  destruct (tab_get (c_schema c) (sm_schemas sm)) as [sc|].
+  - intro H. inversion H; subst. exact L.
+  - destruct (c_schema c =? 0); [|discriminate]. intro H. inversion H; subst. exact L.
+Qed.
+
+Theorem i_next_refines_ts_thm : loader_ok dall ro sm f sel pairs -> forall fuel s a, rinv s a ->
+  match i_next dall ro sm f fuel s with
+  | OutOfFuel => a_next sel (ro_order ro) fuel a = None
+  | Ok (r, s') =>
+      exists ar a', a_next sel (ro_order ro) fuel a = Some (ar, a') /\
+      match ar with
+      | AEnd => r = IEnd EEOF /\ rinv s' a'
+      | AMsg m => r <> IEnd EEOF /\ (forall t, r = IMsg t -> rinv s' a' /\ m_log (snd t) = am_ts m)
+      end
+  | _ => False
+  end.
+Proof.
+  intros HL. induction fuel as [|fu IH]; intros s a HR; [reflexivity|].
+  cbn [i_next a_next]. unfold a_step.
+  pose proof HR as (HM & K1 & HQ). pose proof HM as (Hc & Hq & Hs).
+  assert (Hyield : forall e x q aq, i_queue s = e :: q -> a_queue a = x :: aq -> en_match e x ->
+            forall r s', yield sm e s = (r, s') ->
+            r <> IEnd EEOF /\ (forall t, r = IMsg t -> rinv s' (a_yield x a) /\ m_log (snd t) = am_ts (fst x))).
+  { intros e x q aq Eq Eaq Hex r s' Y. split.
+    - pose proof (yield_not_eof sm e s) as Hn. rewrite Y in Hn. exact Hn.
+    - intros t ->. split.
+      + split; [eapply yield_match; eauto|]. split; [eapply counts_yield; eauto|eapply q_ok_yield; eauto].
+      + rewrite (yield_ts _ _ _ _ _ HQ Eq Y). apply Hex. }
+  assert (Hload : forall ci rest c arest, i_cis s = ci :: rest -> a_cks a = c :: arest ->
+            exists s', load_chunk_i dall ro sm f ci s = Ok s' /\
+                       rinv (s' <| i_cis := rest |>) (a_load sel (ro_order ro) c arest a)).
+  { intros ci rest c arest Ec Eac.
+    destruct (load_match dall ro sm f sel pairs s a ci rest c arest HL HM Ec Eac) as (s' & Hl & HM').
+    exists s'. split; [exact Hl|]. split; [exact HM'|]. split; [apply counts_load, K1|].
+    eapply q_ok_load; eauto. }
+  destruct (i_queue s) as [|e q] eqn:Eq; destruct (a_queue a) as [|x aq] eqn:Eaq; try solve [inversion Hq];
+  destruct (i_cis s) as [|ci rest] eqn:Ec; destruct (a_cks a) as [|c arest] eqn:Eac; try solve [inversion Hc].
+  - exists AEnd, a. split; [reflexivity|]. split; [reflexivity|exact HR].
+  - destruct (Hload ci rest c arest eq_refl eq_refl) as (s' & Hl & HR'). rewrite Hl. apply IH. exact HR'.
+  - assert (Hex : en_match e x) by (inversion Hq; assumption).
+    destruct (yield sm e s) as [r s'] eqn:Y.
+    exists (AMsg (fst x)), (a_yield x a). split; [reflexivity|].
+    eapply Hyield; eauto.
+  - assert (Hex : en_match e x) by (inversion Hq; assumption).
+    assert (Hcc : ci_match pairs ci c) by (inversion Hc; assumption).
+    rewrite (load_first_match pairs (ro_order ro) ci c e x Hcc Hex).
+    destruct (a_load_first (ro_order ro) c x).
+    + destruct (Hload ci rest c arest eq_refl eq_refl) as (s' & Hl & HR'). rewrite Hl. apply IH. exact HR'.
+    + destruct (yield sm e s) as [r s'] eqn:Y.
+      exists (AMsg (fst x)), (a_yield x a). split; [reflexivity|].
+      eapply Hyield; eauto.
+Qed.
+
+Definition log_of (t : triple) : N := m_log (snd t).
+
+Theorem indexed_all_refines_ts_thm : loader_ok dall ro sm f sel pairs ->
+  forall fuel n s a acc aacc st ms st',
+  rinv s a ->
+  indexed_all dall fuel n ro sm f s acc st = Ok (ms, EEOF, st') ->
+  exists out, a_run sel (ro_order ro) fuel n a aacc st = Some (aacc ++ out, st') /\
+              map log_of ms = map log_of acc ++ map am_ts out.
+Proof.
+  intros HL fuel. induction n as [|n IH]; intros s a acc aacc st ms st' HR H; [discriminate|].
+  cbn [indexed_all a_run] in *.
+  pose proof (i_next_refines_ts_thm HL fuel s a HR) as R.
+  destruct (i_next dall ro sm f fuel s) as [[r s1]| | | |]; try discriminate; try contradiction.
+  destruct R as (ar & a' & Hn & R). rewrite Hn. destruct ar as [m|].
+  - destruct R as (Hne & Hst). destruct r as [t|er].
+    + destruct (Hst t eq_refl) as [HR' Hts]. pose proof HR' as (HM' & _).
+      rewrite <- (slot_stats_match _ _ _ HM').
+      destruct (IH _ _ _ (aacc ++ [m]) _ _ _ HR' H) as (out & Hr & Hl).
+      exists (m :: out). rewrite Hr, <- app_assoc. split; [reflexivity|].
+      change (m_log (snd t)) with (log_of t) in Hts.
+      rewrite Hl, map_app, <- app_assoc. cbn [map app]. rewrite Hts. reflexivity.
+    + inversion H; subst. contradiction.
+  - destruct R as [-> HR']. pose proof HR' as (HM' & _). inversion H; subst.
+    exists []. rewrite !app_nil_r, (slot_stats_match _ _ _ HM'). split; reflexivity.
+Qed.
+
+(* the complete indexed read, started as Reader.read_messages starts it: the chunk indexes of the
+   summary (in summary order cis, describing the abstract chunks cks) sorted by ci_sort *)
+Theorem indexed_read_refines_thm : loader_ok dall ro sm f sel pairs ->
+  forall fuel n cis cks ms st,
+  Forall2 (ci_match pairs) cis cks ->
+  indexed_all dall fuel n ro sm f
+    {| i_cis := ci_sort (ro_order ro) cis; i_queue := []; i_slots := []; i_reccap := 0; i_allocs := [] |}
+    [] (O, O) = Ok (ms, EEOF, st) ->
+  exists out, a_read sel (ro_order ro) fuel n cks = Some (out, st) /\ map log_of ms = map am_ts out.
+Proof.
+  intros HL fuel n cis cks ms st Hm H.
+  eapply (indexed_all_refines_ts_thm HL fuel n _ (a_init (ac_sort (ro_order ro) cks)) [] []) in H.
+  - destruct H as (out & Hr & Hl). exists out. split; [exact Hr|exact Hl].
+  - split; [|split].
+    + split; [apply ci_sort_match, Hm|]. split; [constructor|reflexivity].
+    + intro i. destruct i; reflexivity.
+    + constructor.
+Qed.
+
+End RefinementLogTimes.
+
+(* ====================================================================================== *)
+(* 9. examples (non-vacuity)                                                              *)
+(* ====================================================================================== *)
+
+(* boolean checkers for the hypotheses *)
+Definition chunk_wfb (c : achunk) : bool :=
+  forallb (fun m => (ac_start c <=? am_ts m) && (am_ts m <=? ac_end c)) (ac_msgs c).
+Lemma chunks_wfb_ok cks : forallb chunk_wfb cks = true -> chunks_wf cks.
+Proof.
+  intro H. rewrite forallb_forall in H. apply Forall_forall. intros c Hc. specialize (H c Hc).
+  unfold chunk_wfb in H. rewrite forallb_forall in H. apply Forall_forall. intros m Hm.
+  specialize (H m Hm). lia.
+Qed.
+Lemma ranges_okb_ok cks : forallb (fun c => ac_start c <=? ac_end c) cks = true -> ranges_ok cks.
+Proof.
+  intro H. rewrite forallb_forall in H. apply Forall_forall. intros c Hc. specialize (H c Hc). lia.
+Qed.
+Fixpoint nodupNb (l : list N) : bool :=
+  match l with [] => true | x :: r => negb (existsb (N.eqb x) r) && nodupNb r end.
+Lemma nodupNb_ok l : nodupNb l = true -> NoDup l.
+Proof.
+  induction l as [|x r IH]; cbn [nodupNb]; intro H; constructor.
+  - apply andb_prop in H. destruct H as [H _]. intro Hin.
+    assert (existsb (N.eqb x) r = true) as E by (apply existsb_exists; exists x; split; [exact Hin|apply N.eqb_refl]).
+    rewrite E in H. discriminate.
+  - apply IH. apply andb_prop in H. apply H.
+Qed.
+
+Definition mk_msg (t c : N) (u : nat) : amsg := {| am_ts := t; am_chan := c; am_uid := u |}.
+
+(* three chunks whose ranges overlap pairwise-in-a-chain, listed in the summary in an order that
+   is neither file nor time order; the file holds them as B, C, A, i.e. time runs backwards;
+   messages inside B are out of order; log times 15, 20, 25 occur several times *)
+Definition exA : achunk := {| ac_start := 10; ac_end := 20; ac_off := 300;
+  ac_msgs := [mk_msg 10 1 0; mk_msg 20 1 1; mk_msg 15 2 2; mk_msg 20 2 3] |}.
+Definition exB : achunk := {| ac_start := 15; ac_end := 30; ac_off := 100;
+  ac_msgs := [mk_msg 20 1 4; mk_msg 15 1 5; mk_msg 30 2 6; mk_msg 20 1 7] |}.
+Definition exC : achunk := {| ac_start := 25; ac_end := 40; ac_off := 200;
+  ac_msgs := [mk_msg 25 1 8; mk_msg 40 1 9; mk_msg 25 2 10] |}.
+Definition ex_cks : list achunk := [exB; exC; exA].
+Definition sel_all (m : amsg) : bool := true.
+Definition sel_chan1 (m : amsg) : bool := am_chan m =? 1.
+Definition uids (r : option (list amsg * (nat * nat))) : option (list nat * (nat * nat)) :=
+  match r with Some (l, st) => Some (map am_uid l, st) | None => None end.
+
+Example ex_cks_wf : chunks_wf ex_cks.
+Proof. apply chunks_wfb_ok. vm_compute. reflexivity. Qed.
+Example ex_cks_ranges : ranges_ok ex_cks.
+Proof. apply ranges_okb_ok. vm_compute. reflexivity. Qed.
+Example ex_cks_offsets : NoDup (map ac_off ex_cks).
+Proof. apply nodupNb_ok. vm_compute. reflexivity. Qed.
+Example ex_cks_uids : NoDup (map am_uid (all_msgs ex_cks)).
+Proof. vm_compute. repeat constructor; cbn; intuition discriminate. Qed.
+Example ex_fuel : (length ex_cks + 1 <= 4)%nat /\ (length (filter sel_all (all_msgs ex_cks)) + 1 <= 12)%nat.
+Proof. vm_compute. split; repeat constructor. Qed.
+
+Example ex_logtime :
+  uids (a_read sel_all LogTimeOrder 4 12 ex_cks) = Some ([0; 2; 5; 1; 3; 4; 7; 8; 10; 6; 9]%nat, (2, 2)%nat).
+Proof. vm_compute. reflexivity. Qed.
+Example ex_reverse :
+  uids (a_read sel_all ReverseLogTimeOrder 4 12 ex_cks) = Some ([9; 6; 10; 8; 7; 4; 3; 1; 5; 2; 0]%nat, (2, 2)%nat).
+Proof. vm_compute. reflexivity. Qed.
+Example ex_file :
+  uids (a_read sel_all FileOrder 4 12 ex_cks) = Some ([4; 5; 6; 7; 8; 9; 10; 0; 1; 2; 3]%nat, (1, 1)%nat).
+Proof. vm_compute. reflexivity. Qed.
+Example ex_logtime_chan1 :
+  uids (a_read sel_chan1 LogTimeOrder 4 12 ex_cks) = Some ([0; 5; 1; 4; 7; 8; 9]%nat, (2, 2)%nat).
+Proof. vm_compute. reflexivity. Qed.
+Example ex_max_overlap : max_overlap ex_cks = 2%nat.
+Proof. vm_compute. reflexivity. Qed.
+(* the summary order does not matter *)
+Example ex_summary_order :
+  Permutation ex_cks [exA; exB; exC] /\
+  a_read sel_all LogTimeOrder 4 12 [exA; exB; exC] = a_read sel_all LogTimeOrder 4 12 ex_cks.
+Proof.
+  split; [|vm_compute; reflexivity].
+  unfold ex_cks. apply Permutation_sym. apply (Permutation_cons_app [exB; exC] [] exA). reflexivity.
+Qed.
+(* a same-chunk tie: messages 1 and 3 of chunk A both have log time 20 *)
+Example ex_tie : before (mk_msg 20 1 1) (mk_msg 20 2 3) (ac_msgs exA) /\ In exA ex_cks.
+Proof. split; [apply bf_later, bf_here; right; left; reflexivity|right; right; left; reflexivity]. Qed.
+
+(* three nested chunks: three slots are needed and used *)
+Definition ex_nest : list achunk :=
+  [ {| ac_start := 0; ac_end := 100; ac_off := 1; ac_msgs := [mk_msg 0 1 0; mk_msg 50 1 1; mk_msg 100 1 2] |};
+    {| ac_start := 10; ac_end := 90; ac_off := 2; ac_msgs := [mk_msg 10 1 3; mk_msg 50 1 4; mk_msg 90 1 5] |};
+    {| ac_start := 20; ac_end := 80; ac_off := 3; ac_msgs := [mk_msg 50 1 6; mk_msg 20 1 7; mk_msg 80 1 8] |} ].
+Example ex_nest_run :
+  uids (a_read sel_all LogTimeOrder 4 10 ex_nest) = Some ([0; 3; 7; 1; 4; 6; 8; 5; 2]%nat, (3, 3)%nat) /\
+  uids (a_read sel_all ReverseLogTimeOrder 4 10 ex_nest) = Some ([2; 5; 8; 1; 4; 6; 7; 3; 0]%nat, (3, 3)%nat) /\
+  max_overlap ex_nest = 3%nat.
+Proof. vm_compute. repeat split. Qed.
+
+(* C20 needs ranges_ok: a message-less chunk whose index says start > end takes a second slot
+   although no two ranges share a point *)
+Definition ex_bad_range : list achunk :=
+  [ {| ac_start := 0; ac_end := 10; ac_off := 1; ac_msgs := [mk_msg 5 1 0; mk_msg 10 1 1] |};
+    {| ac_start := 3; ac_end := 1; ac_off := 2; ac_msgs := [] |} ].
+Example ex_bad_range_refutes :
+  chunks_wf ex_bad_range /\ NoDup (map ac_off ex_bad_range) /\
+  uids (a_read sel_all LogTimeOrder 3 3 ex_bad_range) = Some ([0; 1]%nat, (2, 1)%nat) /\
+  Nat.max 1 (max_overlap ex_bad_range) = 1%nat.
+Proof.
+  split; [apply chunks_wfb_ok; vm_compute; reflexivity|].
+  split; [apply nodupNb_ok; vm_compute; reflexivity|]. vm_compute. split; reflexivity.
+Qed.
+
+(* options *)
+Example ex_spellings : (5 <= 9) /\ (0 < 9).
+Proof. lia. Qed.
+Example ex_window_errors : 9 < 12 /\ 0 < 9.
+Proof. lia. Qed.
+
+(* pruning: window [50, 60) drops a chunk with range [10, 20]; a chunk whose message index names
+   only channel 7 is dropped when channel 7 is not selected *)
+Definition ex_ro : ropts :=
+  {| ro_start := 0; ro_end := 0; ro_topics := []; ro_use_index := true; ro_order := LogTimeOrder;
+     ro_md_cb := false; ro_start_n := 50; ro_end_n := 60; ro_unbounded := false |}.
+Definition ex_ci : chunkindex :=
+  {| ci_start := 10; ci_end := 20; ci_offset := 300; ci_length := 100; ci_mioffsets := [(1, 400); (2, 450)];
+     ci_milength := 80; ci_comp := []; ci_csize := 60; ci_usize := 60 |}.
+Example ex_pruning_time :
+  ci_start ex_ci = ac_start exA /\ ci_end ex_ci = ac_end exA /\ chunk_wf exA /\ ci_time_ok ex_ro false ex_ci = false.
+Proof.
+  split; [reflexivity|]. split; [reflexivity|]. split; [|reflexivity].
+  pose proof ex_cks_wf as H. inversion H as [|? ? _ H1]; subst. inversion H1 as [|? ? _ H2]; subst.
+  inversion H2; assumption.
+Qed.
+Definition ex_channels : list (N * channel) :=
+  [(7, {| c_id := 7; c_schema := 0; c_topic := []; c_menc := []; c_meta := [] |})].
+Example ex_pruning_topic :
+  (forall m, In m (ac_msgs exA) -> exists kv, In kv (ci_mioffsets ex_ci) /\ fst kv = am_chan m) /\
+  ci_topic_ok ex_channels ex_ci = false.
+Proof.
+  split; [|reflexivity]. intros m [<-|[<-|[<-|[<-|[]]]]]; cbn.
+  - exists (1, 400). auto.
+  - exists (1, 400). auto.
+  - exists (2, 450). auto.
+  - exists (2, 450). auto.
+Qed.
+
+(* packaged statements used by the property files *)
+Theorem C03_load_order_logtime_thm : forall l,
+  Permutation (ac_sort LogTimeOrder l) l /\
+  StronglySorted (fun a b => ac_start a <= ac_start b) (ac_sort LogTimeOrder l).
+Proof. intro l. exact (conj (ac_sort_perm LogTimeOrder l) (ac_sort_logtime_sorted l)). Qed.
+Theorem C03_load_order_reverse_thm : forall l,
+  Permutation (ac_sort ReverseLogTimeOrder l) l /\
+  StronglySorted (fun a b => ac_end b <= ac_end a) (ac_sort ReverseLogTimeOrder l).
+Proof. intro l. exact (conj (ac_sort_perm ReverseLogTimeOrder l) (ac_sort_reverse_sorted l)). Qed.
+Theorem C03_load_order_file_thm : forall l,
+  Permutation (ac_sort FileOrder l) l /\
+  StronglySorted (fun a b => ac_off a <= ac_off b) (ac_sort FileOrder l).
+Proof. intro l. exact (conj (ac_sort_perm FileOrder l) (ac_sort_file_sorted l)). Qed.
+Theorem C03_before_meaning_thm : forall (A : Type) (a b : A) l,
+  (before a b l <-> exists l1 l2 l3, l = l1 ++ a :: l2 ++ b :: l3) /\
+  (NoDup l -> before a b l -> before b a l -> False).
+Proof. intros A a b l. exact (conj (before_split a b l) (before_asym_nodup a b l)). Qed.
+Theorem C20_max_overlap_meaning_thm : forall cks,
+  (forall p, (overlap_at cks p <= max_overlap cks)%nat) /\
+  (max_overlap cks = O \/ exists p, overlap_at cks p = max_overlap cks).
+Proof. intro cks. exact (conj (overlap_at_le_max cks) (max_overlap_attained cks)). Qed.
